@@ -117,7 +117,8 @@ func genCase(g *Rng) (*Replay, *caseGen) {
 		// RANGE on a server-cached cursor, every partition in one chunk, appends land in that chunk
 		rp.Chunk = 1000000
 		rp.Flt.Range = true
-		rp.Flt.Lo = pickInt64(g, 0, 1000, 1000+int64(g.Intn(int(cg.ts-1000)+1)))
+		// (also lower bounds above everything stored so far: the chunk is outside the range until it grows)
+		rp.Flt.Lo = pickInt64(g, 0, 1000, 1000+int64(g.Intn(int(cg.ts-1000)+1)), 1000+int64(g.Intn(int(cg.ts-1000)+1)), cg.ts+1, cg.ts+int64(g.Range(2, 6)))
 		rp.Flt.Hi = pickInt64(g, cg.ts+1000000, cg.ts+1000000, cg.ts+int64(g.Intn(40)), cg.ts-int64(g.Intn(5)))
 		rp.Start = ""
 	}
@@ -422,6 +423,8 @@ func runCase(rp *Replay, cg *caseGen) (*Case, error) {
 		stream = "exhaustive"
 	} else if strings.HasPrefix(rp.Name, "empty-first-") {
 		stream = "empty-first"
+	} else if strings.HasPrefix(rp.Name, "range-grow-") {
+		stream = "range-grow"
 	} else if rp.Name != "" {
 		stream = "corpus"
 	} else if rp.Sel != nil {
@@ -596,6 +599,61 @@ func emptyFirst() []Replay {
 					{Kind: kind, Limit: 2, Apps: apps(2), Rpc: n%2 == 0},
 					{Kind: "same", Limit: first, Apps: apps(1)},
 					{Kind: kind, Limit: 7, Rpc: n%3 == 1}}
+				out = append(out, rp)
+			}
+		}
+	}
+	return out
+}
+
+// rangeGrow: RANGE queries on a cursor the server keeps (limit above QueryMaxLimit or WaitTimeout: the cursor's chunk
+// selector with its per-chunk windows survives between the pages) whose lower bound lies above everything a partition
+// holds when the first page is read - the chunk is wholly outside the range then - followed by appends inside the
+// range: into that same chunk (one large chunk) or into it and new chunks (small chunks), then the read is resumed in
+// each resume kind. With one partition the first page is empty; with two, the second partition has an event in the
+// range already, the first one has none. What is appended in range after the first page has to be delivered.
+func rangeGrow() []Replay {
+	var out []Replay
+	n := 0
+	for _, kind := range []string{"same", "evict", "zero", "posonly"} {
+		for _, chunk := range []int64{1000000, 100} {
+			for nparts := 1; nparts <= 2; nparts++ {
+				n++
+				rp := Replay{Name: fmt.Sprintf("range-grow-%s-%d-%d", kind, chunk, nparts), Chunk: chunk}
+				ts := int64(1000)
+				ev := func() Ev {
+					ts++
+					e := Ev{Ts: ts, Msg: fmt.Sprintf("m%05d", ts%100000)}
+					if ts%3 == 0 {
+						e.Flds = fmt.Sprintf("f=v%d", ts)
+					}
+					return e
+				}
+				for p := 0; p < nparts; p++ {
+					rp.Init = append(rp.Init, Batch{Part: p, Evs: []Ev{ev(), ev()}})
+				}
+				// one partition: the range begins after everything stored; two: at the last stored event (of partition 1)
+				lo := ts + 1
+				if nparts == 2 {
+					lo = ts
+				}
+				rp.Flt = Filter{Range: true, Lo: lo, Hi: ts + 1000000}
+				apps := func(k int) []Batch {
+					var bs []Batch
+					for p := 0; p < nparts; p++ {
+						b := Batch{Part: p}
+						for i := 0; i < k; i++ {
+							b.Evs = append(b.Evs, ev())
+						}
+						bs = append(bs, b)
+					}
+					return bs
+				}
+				rp.Steps = []Step{{Kind: "same", Limit: 10001, Rpc: n%3 == 0},
+					{Kind: kind, Limit: 2, Wait: true, Apps: apps(2), Rpc: n%2 == 0},
+					{Kind: "same", Limit: 1, Wait: true, Apps: apps(3)},
+					{Kind: kind, Limit: 10001, Apps: apps(1), Rpc: n%3 == 1},
+					{Kind: "same", Limit: 10001}}
 				out = append(out, rp)
 			}
 		}
